@@ -69,6 +69,11 @@ func isCardNumberValid(cardNumber uint32, formats ...types.CardFormat) bool {
 func isWiegand26(card uint32) bool {
 	s := fmt.Sprintf("%08v", card)
 
+	// facility code (3 digits) + card number (5 digits): anything longer is not Wiegand-26
+	if len(s) != 8 {
+		return false
+	}
+
 	if facilityCode, err := strconv.Atoi(s[:3]); err != nil {
 		return false
 	} else if cardNumber, err := strconv.Atoi(s[3:]); err != nil {
